@@ -4,9 +4,11 @@
    is section R below: proved for EVERY parse / join result (C03_parse_reachability; file scheme included), for
    the records of the file-path constructors and along ALL 19 mutators outside a computable exclusion
    (C03_reachability over reach03a, section R2; C03_accessors_reach is the property text's first two sentences
-   for every such record).  C03_reachability_full_statement (C02's Reachable: joins against ANY reached base,
-   the exclusions being exactly C02's known_step) is not proved: what separates it from C03_reachability is
-   listed in front of it.  Section V: the remaining "views agree" clauses. *)
+   for every such record).  Sections R4 / R5: base_ok, auth_end_ok and "no default port stored" are invariants
+   (inv03), so joins need no premise and the exclusions are exactly the known classes; for C02's own quantifier
+   Reachable3 (known_step2 on the call, query_pairs_mut sessions) every record satisfies wf_b /\ host_text_ok
+   (C03_reachability_full, C03_accessors_reachable).  The first formulation C03_reachability_full_statement
+   (HostWf alone) is refuted.  Section V: the remaining "views agree" clauses. *)
 From Coq Require Import String.
 From RU Require Import Base.Prelude Base.Utf8 Model.HostT Model.UrlRecord Model.Parser Model.Setters Model.WF
   Proofs.ListN Proofs.C03_WF Proofs.C06_Suffix Proofs.C06_HostNone Proofs.C06_Host Proofs.C06_Segments Proofs.C06_Path
@@ -14,7 +16,7 @@ From RU Require Import Base.Prelude Base.Utf8 Model.HostT Model.UrlRecord Model.
   Proofs.C03_ReachParts Proofs.C03_Reach Proofs.C03_ReachFile Proofs.C03_ReachHost Proofs.C03_ReachHist
   Model.FilePath Proofs.C06_Path Proofs.C06_Host Proofs.C05_Enc Proofs.C03_ReachAll Proofs.C03_Reachability
   Proofs.C03_ReachAscii Proofs.C03_ReachEx Proofs.C03_Views Proofs.C03_PortInv Proofs.C03_PortParse Proofs.C03_AuthEnd Proofs.C03_ReachKnown
-  Proofs.C05_AuthOfs Proofs.C02_Hist Proofs.C02_SetHostCanon Proofs.C02_Reach3 Proofs.C03_ParseFront Proofs.C03_ReachJoin Proofs.C03_ReachFull Proofs.C03_ReachFullEx.
+  Proofs.C05_AuthOfs Proofs.C02_Hist Proofs.C02_SetHostCanon Proofs.C02_Reach3 Proofs.C03_ParseFront Proofs.C03_ReachJoin Proofs.C03_ReachFull Proofs.C03_ReachFullEx Proofs.C03_ReachModel.
 Open Scope string_scope.
 Open Scope N_scope.
 Open Scope list_scope.
@@ -420,11 +422,11 @@ Qed.
    of excl03k (an empty host in front of a stored port) is refused by quirks::set_host / set_hostname themselves and
    cannot come out of Url::set_host with a non-empty argument or set_ip_host (host_nonempty of C02: Host::parse never
    returns the empty host, Host::parse_opaque only for the empty text); is_cbb = is_opaque_b; F-C02-8 = path_bad
-   without marker; query_pairs_mut keeps inv03.  HostOK / IpOK of C05 (displays stay in 0x21..0x7E): the session
-   theorem of C15 is about ASCII serializations. *)
+   without marker; query_pairs_mut keeps inv03.  HostOK / IpOKv of C05 (the displays of parsed hosts and of address values stay in 0x21..0x7E): the
+   session theorem of C15 is about ASCII serializations. *)
 Definition C03_reachability_full_statement2 : Prop :=
   forall dbg hp hpo hd, HostWf hp hpo hd -> host_nonempty hp hpo -> IpWf hd ->
-  C05_Parser.HostOK hp hpo hd -> C05_Setters.IpOK hd ->
+  C05_Parser.HostOK hp hpo hd -> C05_Alphabet.IpOKv hd ->
   forall u, Reachable3 dbg hp hpo hd u ->
   (wf_b u = true /\ host_text_ok u) /\ base_ok u = true /\ auth_end_ok u /\ PN u.
 
@@ -443,7 +445,7 @@ Proof. exact qpm_inv03. Qed.
 Print Assumptions C03_query_pairs_step.
 
 Theorem C03_reachability_full_partial : forall dbg hp hpo hd, HostWf hp hpo hd -> host_nonempty hp hpo -> IpWf hd ->
-  C05_Parser.HostOK hp hpo hd -> C05_Setters.IpOK hd -> SessNoSS dbg ->
+  C05_Parser.HostOK hp hpo hd -> C05_Alphabet.IpOKv hd -> SessNoSS dbg ->
   forall u, Reachable3 dbg hp hpo hd u ->
   (wf_b u = true /\ host_text_ok u) /\ base_ok u = true /\ auth_end_ok u /\ PN u.
 Proof.
@@ -452,7 +454,7 @@ Proof.
   split; [exact K|]. split; [exact (as_base_ok u (proj1 K) A)|]. split; [exact (he_auth_end u K E) | exact P].
 Qed.
 Check C03_reachability_full_partial : forall dbg hp hpo hd, HostWf hp hpo hd -> host_nonempty hp hpo -> IpWf hd ->
-  C05_Parser.HostOK hp hpo hd -> C05_Setters.IpOK hd -> SessNoSS dbg ->
+  C05_Parser.HostOK hp hpo hd -> C05_Alphabet.IpOKv hd -> SessNoSS dbg ->
   forall u, Reachable3 dbg hp hpo hd u ->
   (wf_b u = true /\ host_text_ok u) /\ base_ok u = true /\ auth_end_ok u /\ PN u.
 Print Assumptions C03_reachability_full_partial.
@@ -476,14 +478,28 @@ Proof.
   split; [exact K|]. split; [exact (as_base_ok u (proj1 K) A)|]. split; [exact (he_auth_end u K E) | exact P].
 Qed.
 Check C03_reachability_full : forall dbg hp hpo hd, HostWf hp hpo hd -> host_nonempty hp hpo -> IpWf hd ->
-  C05_Parser.HostOK hp hpo hd -> C05_Setters.IpOK hd ->
+  C05_Parser.HostOK hp hpo hd -> C05_Alphabet.IpOKv hd ->
   forall u, Reachable3 dbg hp hpo hd u ->
   (wf_b u = true /\ host_text_ok u) /\ base_ok u = true /\ auth_end_ok u /\ PN u.
 Print Assumptions C03_reachability_full.
 
+(* the same with the host MODEL (Model/Host.v; property C09) in place of the abstract host functions: the five
+   hypotheses are met under the only premise IdnaOK idna (what the idna crate's ToASCII must satisfy, C09) *)
+Theorem C03_reachability_full_model : forall dbg idna, C09_Host.IdnaOK idna ->
+  forall u, Reachable3 dbg (Host.host_parse idna) Host.host_parse_opaque Host.host_display u ->
+  (wf_b u = true /\ host_text_ok u) /\ base_ok u = true /\ auth_end_ok u /\ PN u.
+Proof.
+  intros dbg idna OK u R. destruct (reach3_model dbg idna OK u R) as (K & A & P & E).
+  split; [exact K|]. split; [exact (as_base_ok u (proj1 K) A)|]. split; [exact (he_auth_end u K E) | exact P].
+Qed.
+Check C03_reachability_full_model : forall dbg idna, C09_Host.IdnaOK idna ->
+  forall u, Reachable3 dbg (Host.host_parse idna) Host.host_parse_opaque Host.host_display u ->
+  (wf_b u = true /\ host_text_ok u) /\ base_ok u = true /\ auth_end_ok u /\ PN u.
+Print Assumptions C03_reachability_full_model.
+
 (* hence the first two sentences of the property text for every record of Reachable3, in both build configurations *)
 Theorem C03_accessors_reachable : forall dbg dbg' hp hpo hd u, HostWf hp hpo hd -> host_nonempty hp hpo -> IpWf hd ->
-  C05_Parser.HostOK hp hpo hd -> C05_Setters.IpOK hd -> Reachable3 dbg hp hpo hd u ->
+  C05_Parser.HostOK hp hpo hd -> C05_Alphabet.IpOKv hd -> Reachable3 dbg hp hpo hd u ->
   (exists sch un pw hs pth q f,
     scheme u = Some sch /\ username dbg' u = Some un /\ password dbg' u = Some pw /\ host_str u = Some hs
     /\ path u = Some pth /\ query dbg' u = Some q /\ fragment dbg' u = Some f
@@ -522,7 +538,7 @@ Print Assumptions C03_accessors_reachable.
    set_path "/d", join "e" -> "a:/e" *)
 Example C03_reachability_full_inhabited :
   (HostWf ex_hp3 ex_hp ex_hd2 /\ host_nonempty ex_hp3 ex_hp /\ IpWf ex_hd2
-   /\ C05_Parser.HostOK ex_hp3 ex_hp ex_hd2 /\ C05_Setters.IpOK ex_hd2)
+   /\ C05_Parser.HostOK ex_hp3 ex_hp ex_hd2 /\ C05_Alphabet.IpOKv ex_hd2)
   /\ reach3_example_stmt.
 Proof. split; [exact ex3_full_hyps | exact reach3_example]. Qed.
 
